@@ -13,6 +13,7 @@ func init() {
 	verifRegister("verifC20Deferred", verifC20Deferred)
 	verifRegister("verifC20DeferredSuperseded", verifC20DeferredSuperseded)
 	verifRegister("verifC20ControllingReorder", verifC20ControllingReorder)
+	verifRegister("verifC20DeferredConsumedOnce", verifC20DeferredConsumedOnce)
 	verifRegister("verifC20Renominate", verifC20Renominate)
 	verifRegister("verifC20Codec", verifC20Codec)
 }
@@ -346,5 +347,72 @@ func verifC20ControllingReorder() {
 		answer(ra, 0) // the older nomination's response arrives late
 	}
 	verifAssertKnown(a.getSelectedPair() == pb, "controlling-side-ends-on-the-pair-of-the-highest-value-it-issued", "C20-controlling-late-response-switches-back", true)
+	verifReach("done")
+}
+
+// (3'') a deferred nomination is consumed when its pair becomes valid: a later
+// success response on that pair (the answer to a keepalive) must not apply it
+// a second time. Plain USE-CANDIDATE on not-yet-valid P (deferred), P's check
+// succeeds (P selected), a tick sends a keepalive on P, the peer renominates
+// the valid pair Q (selected), then the keepalive's response arrives: the
+// selection stays on Q whatever the priorities.
+func verifC20DeferredConsumedOnce() {
+	w := verifNewWorld(false, false, 2, 1)
+	a := w.a
+	a.enableRenomination = true
+	w.pairAll()
+	for _, l := range w.locals {
+		l.priorityOverride = 1 + uint32(verifU8())
+	}
+	pp, pq := a.checklist[0], a.checklist[1]
+	pp.state = CandidatePairState(verifInt(1, 2))
+	pq.state = CandidatePairStateSucceeded
+	src := w.remotes[0].addrPort()
+	lastReq := func(ci int) *stun.Message {
+		var m *stun.Message
+		for i := range w.conns[ci].sent {
+			if x := verifParseSent(w.conns[ci], i); x != nil && x.Type.Class == stun.ClassRequest {
+				m = x
+			}
+		}
+		return m
+	}
+	answer := func(req *stun.Message, li int) {
+		resp, err := stun.Build(stun.BindingSuccess, stun.NewTransactionIDSetter(req.TransactionID), stun.NewShortTermIntegrity(verifRemotePwd), stun.Fingerprint)
+		verifAssert(err == nil, "build")
+		a.handleInbound(resp, w.locals[li], src)
+	}
+	// 1. plain nomination of P before P is valid
+	req, err := stun.Build(stun.BindingRequest, stun.NewTransactionIDSetter(verifTxID()), stun.NewUsername(verifExpectedUsername), UseCandidate(),
+		AttrControlling(1), PriorityAttr(5), stun.NewShortTermIntegrity(verifLocalPwd), stun.Fingerprint)
+	verifAssert(err == nil, "build")
+	a.handleInbound(req, w.locals[0], src)
+	check := lastReq(0)
+	verifAssert(pp.nominateOnBindingSuccess && check != nil, "plain-nomination-deferred,triggered-check-sent")
+	if check == nil {
+		return
+	}
+	// 2. P validates: the deferred nomination is applied
+	answer(check, 0)
+	verifAssert(a.getSelectedPair() == pp, "deferred-nomination-applied-once-the-pair-is-valid")
+	// 3. a tick: keepalive on the selected pair
+	verifBaseOf(pp.Remote).setLastReceived(verifNow())
+	a.getSelector().ContactCandidates()
+	keepalive := lastReq(0)
+	verifAssert(keepalive != nil && keepalive.TransactionID != check.TransactionID, "keepalive-sent-on-the-selected-pair")
+	if keepalive == nil || keepalive.TransactionID == check.TransactionID {
+		return
+	}
+	// 4. the peer renominates Q (valid): the agent follows
+	v := 1 + verifU32()&0xFFFF
+	reqQ, err := stun.Build(stun.BindingRequest, stun.NewTransactionIDSetter(verifTxID()), stun.NewUsername(verifExpectedUsername), UseCandidate(),
+		NominationSetter{Value: v, AttrType: DefaultNominationAttribute}, AttrControlling(1), PriorityAttr(5),
+		stun.NewShortTermIntegrity(verifLocalPwd), stun.Fingerprint)
+	verifAssert(err == nil, "build")
+	a.handleInbound(reqQ, w.locals[1], src)
+	verifAssert(a.getSelectedPair() == pq, "renomination-of-a-valid-pair-selects-it")
+	// 5. the keepalive's response arrives late
+	answer(keepalive, 0)
+	verifAssertKnown(a.getSelectedPair() == pq, "a-consumed-deferred-nomination-is-not-applied-again-by-a-later-response", "C20-deferred-nomination-applied-twice", true)
 	verifReach("done")
 }
